@@ -363,6 +363,30 @@ def describe():
         for cat, m in cats.items():
             reg[ver][cat] = {t: (c.__module__[len("stix2."):] + "." + c.__name__) for t, c in sorted(m.items())}
     out["registry"] = reg
+    # registered extension classes: their _toplevel_properties (None = no such attribute)
+    ext_tl = {}
+    for ver, cats in stix2.registry.STIX2_OBJ_MAPS.items():
+        ext_tl[ver] = {}
+        for t, c in sorted(cats.get("extensions", {}).items()):
+            tl = getattr(c, "_toplevel_properties", None)
+            ext_tl[ver][t] = None if tl is None else [slot_desc(n, p) for n, p in tl.items()]
+    out["ext_toplevel"] = ext_tl
+    # source text of every __init__ / _check_object_constraints definition that can run
+    hook_src = {}
+    seen = set()
+    for key, cls in classes.items():
+        for k in cls.__mro__:
+            if not k.__module__.startswith("stix2"):
+                continue
+            qn = k.__module__[len("stix2."):] + "." + k.__qualname__
+            for attr in ("__init__", "_check_object_constraints"):
+                if attr in vars(k) and (qn, attr) not in seen:
+                    seen.add((qn, attr))
+                    try:
+                        hook_src.setdefault(qn, {})[attr] = textwrap.dedent(inspect.getsource(vars(k)[attr]))
+                    except (OSError, TypeError):
+                        hook_src.setdefault(qn, {})[attr] = None
+    out["hook_src"] = hook_src
     for key, cls in classes.items():
         ver = version_of(cls)
         base = base_for_class(cls, ver)
@@ -479,12 +503,12 @@ def materialise(case):
         d = case["deep"]
         if d["shape"] == "bundle":
             return deep_bundle(d["depth"])
-        inner = deep_value(d["shape"], d["depth"], d.get("leaf", 1))
         if d.get("text"):
             # nested JSON text without building the Python value first
             if d["shape"] == "list":
                 return "[" * d["depth"] + "1" + "]" * d["depth"]
             return '{"a":' * d["depth"] + "1" + "}" * d["depth"]
+        inner = deep_value(d["shape"], d["depth"], d.get("leaf", 1))
         if "at" in d:
             data = copy.deepcopy(d["within"])
             return set_path(data, d["at"], inner)
@@ -510,11 +534,16 @@ def run_case(case):
         for pre in case.get("pre", []):
             store.add(copy.deepcopy(pre))
         st0 = store_snapshot(store)
+        res["store_len0"] = len(store._data)
         # does constructing the same input fail on its own?  (same call the store makes)
     try:
         with warnings.catch_warnings():
             warnings.simplefilter("ignore")
-            if op in ("parse", "deep"):
+            if op == "deep" and case.get("via") == "file":
+                r = stix2.parse(io.StringIO(data), allow_custom=allow_custom, version=version)
+            elif op == "deep" and case.get("via") == "parse_observable":
+                r = stix2.parse_observable(data, [], allow_custom=allow_custom, version=version)
+            elif op in ("parse", "deep"):
                 r = stix2.parse(data, allow_custom=allow_custom, version=version)
             elif op == "parse_text":
                 r = stix2.parse(data if isinstance(data, str) else json.dumps(data), allow_custom=allow_custom, version=version)
@@ -540,7 +569,10 @@ def run_case(case):
         res["cls"] = "RecursionError"
         res["mro"] = [k.__name__ for k in type(e).__mro__]
         res["family"] = False
-        res["fn"], res["line"] = None, None
+        try:
+            res["fn"], res["line"] = innermost_stix2(e.__traceback__)
+        except Exception:  # noqa: BLE001
+            res["fn"], res["line"] = None, None
     except BaseException as e:  # noqa: BLE001
         res["out"] = "Raise"
         res["cls"] = type(e).__name__
@@ -551,6 +583,7 @@ def run_case(case):
     res["reg_same"] = registry_snapshot() == reg0
     if store is not None:
         res["store_same"] = store_snapshot(store) == st0
+        res["store_len1"] = len(store._data)
         # classify: did the construction (parse) of the input itself fail?
         try:
             with warnings.catch_warnings():
